@@ -214,6 +214,20 @@ impl SymbolTable {
     })
   }
 
+  /// Splits a (possibly specialized) type name into the name of the class it was specialized from
+  /// and the type arguments it was specialized with.
+  pub fn base_type_name_and_suffix(&mut self, id: TypeNameId) -> (TypeNameId, Vec<Type>) {
+    let Some(name) = self.type_name_lookup_table.get(&id) else {
+      return (id, Vec::with_capacity(0));
+    };
+    if name.suffix.is_empty() || name.sub_type_tag.is_some() {
+      return (id, Vec::with_capacity(0));
+    }
+    let (module_reference, type_name, suffix) =
+      (name.module_reference, name.type_name, name.suffix.clone());
+    (self.create_simple_type_name(module_reference, type_name), suffix)
+  }
+
   /// If the given TypeNameId is a subtype (has a sub_type_tag), returns the parent TypeNameId.
   /// Otherwise returns None.
   pub fn get_parent_type_if_subtype(&self, id: TypeNameId) -> Option<TypeNameId> {
